@@ -31,7 +31,7 @@ theorem panic_count_exact {cap hh} (s : St μ) (h : Reachable cap hh s) :
 /-- a stop requested while a panicking metric is in flight is still honoured: after the last drop
 the worker keeps stepping until it has exited and released, over every outcome script -/
 theorem stop_honoured_after_panic {cap hh} (s : St μ) (h : Reachable cap hh s) (h0 : s.handles = [])
-    (hc : s.cap ≠ some 0) (hr : s.released = false) : ∃ l, isWorker l = true ∧ (step s l).isSome = true :=
+    (hc : s.cap ≠ some 0) (hr : s.released = false) : ∃ l, isSystem l = true ∧ (step s l).isSome = true :=
   progress s h h0 hc hr
 
 -- non-vacuity: two consecutive panics, then a delivery; panics = 2, all three metrics handed over once
